@@ -691,3 +691,43 @@ Example ex_file_word_fault :
   let s := exec_fault (init_fs (cfg1 Join false false)) t 9 Kill in
   (s (POut 0), view (wcount 0 t) (s (PTmp 0))) = (Absent, VPartial).
 Proof. vm_compute. reflexivity. Qed.
+
+(* ------------------------------------------------------------------ *)
+(* restart: the state left by a faulted run is a legal state to start   *)
+(* the next run from                                                    *)
+(* ------------------------------------------------------------------ *)
+Lemma view_cases : forall w st, view w st = VAbsent -> st = Absent.
+Proof.
+  intros w [| | |m b]; simpl; intros H; try discriminate; auto.
+  destruct (negb b && N.eqb m w); discriminate.
+Qed.
+
+Theorem rerun_ready :
+  forall (c : cfg) (n : nat) (t : list op) (s0 : fs) (k : nat) (f : fault)
+         (tk' : task),
+    accepts c n t = true -> init_ok c s0 ->
+    let s' := age t (exec_fault s0 t k f) in
+    init_ok (flags_of tk' s') s'.
+Proof.
+  intros c n t s0 k f tk' Hacc Hinit s'.
+  destruct (no_partial_output c n t s0 k f Hacc Hinit)
+    as (_ & Hview & Hin & Hnp).
+  unfold init_ok, flags_of; simpl.
+  split; [|split; [|split]].
+  - intros i. unfold s', age.
+    destruct (Hview i) as [E|E]; simpl; rewrite E; reflexivity.
+  - intros i. unfold s', age.
+    destruct (exec_fault s0 t k f (PTmp i)); simpl; auto; discriminate.
+  - intros j. unfold s', age. rewrite Hin.
+    destruct Hinit as (_ & _ & Hi & _). rewrite Hi. reflexivity.
+  - intros j. unfold s', age.
+    specialize (Hnp (POther j) eq_refl). simpl in Hnp.
+    destruct (view 0 (exec_fault s0 t k f (POther j))); auto.
+    exfalso; apply Hnp; reflexivity.
+Qed.
+
+Example ex_rerun :
+  let t := ex_compress in
+  let s' := age t (exec_fault (init_fs (cfg_stale Compress)) t 6 Kill) in
+  (s' (POut 0), s' (PTmp 0), s' (PIn 0)) = (Absent, Junk, Old).
+Proof. vm_compute. reflexivity. Qed.
